@@ -193,7 +193,9 @@ class rows:
 TEXTCANVAS = canvas_shape(_canvas.TextCanvas)
 
 
-@contract("urwid/canvas.py:apply_text_layout", property=(), assumed=True, deterministic=True,
+# (registered under an alias and handed to the Text contracts through `contract_overrides`: whoever puts the real
+#  function under contract owns the plain key)
+@contract("urwid/canvas.py:apply_text_layout", property=(), assumed=True, deterministic=True, alias="opaque-for-C03-text",
           notes="applies a translation to text + attributes: a pure function of its four arguments that produces one canvas "
                 "row per line of the translation, `maxcol` columns wide (TextCanvas(t, a, c, maxcol=maxcol) with one "
                 "entry of t per line).  Owned by the bounded stand-in of C03 (rows-equals-lines compares "
@@ -217,7 +219,7 @@ def same_canvas(a, b):
     return both(*[eq(a.fields[k], b.fields[k]) if not isinstance(a.fields[k], V.SOpt) else opt_eq(a.fields[k], b.fields[k]) for k in a.fields])
 
 
-@contract(TX + "Text.render", property="C03", **COMMON)
+@contract(TX + "Text.render", property="C03", contract_overrides={"urwid/canvas.py:apply_text_layout": apply_text_layout}, **COMMON)
 class render:
     # size == () (FIXED sizing) measures the text itself through pack(None): no width is involved, not stated here
     params = dict(size=Tup(Int), focus=Bool)
@@ -285,7 +287,7 @@ MARKUP = Opaque("Markup")
 PROTOCOLS.setdefault("Markup", type("MarkupProtocol", (Protocol,), {"kind": "Markup", "methods": {}})())
 
 
-@contract("urwid/util.py:decompose_tagmarkup", property=(), assumed=True, deterministic=True,
+@contract("urwid/util.py:decompose_tagmarkup", property=(), assumed=True, deterministic=True, alias="opaque-for-C03-text",
           notes="markup -> (text, run-length attributes): a pure function of the markup (C17 owns what it computes); "
                 "raises TagMarkupException for malformed markup")
 class decompose_tagmarkup:
@@ -302,7 +304,7 @@ def decomposed(markup):
     return uf_shape_value(cur(), "fn:decompose_tagmarkup", encode_arg(cur(), markup), decompose_tagmarkup.result)
 
 
-@contract(TX + "Text.set_text", property="C03", **MUT)
+@contract(TX + "Text.set_text", property="C03", contract_overrides={"urwid/util.py:decompose_tagmarkup": decompose_tagmarkup}, **MUT)
 class set_text:
     params = dict(markup=MARKUP)
     raises = (_util.TagMarkupException,)
